@@ -568,6 +568,11 @@ class BasicContiguousVector<cntgs::Options<Option...>, Parameter...>
                 // cannot be told from the bytes when the elements are empty (all FixedSize parameters of size 0)
                 return false;
             }
+            if (!has_equal_fixed_sizes(other, std::make_index_sequence<ListTraits::CONTIGUOUS_FIXED_SIZE_COUNT>{}))
+            {
+                // same bytes do not mean same elements when the fields are cut differently
+                return false;
+            }
             return detail::trivial_equal(data_begin(), data_end(), other.data_begin(), other.data_end());
         }
         else
@@ -590,6 +595,11 @@ class BasicContiguousVector<cntgs::Options<Option...>, Parameter...>
             {
                 return false;
             }
+            if (!has_equal_fixed_sizes(other, std::make_index_sequence<ListTraits::CONTIGUOUS_FIXED_SIZE_COUNT>{}))
+            {
+                // elements of different length: the block is not the concatenation of equally long keys
+                return std::lexicographical_compare(begin(), end(), other.begin(), other.end());
+            }
             if (data_begin() == data_end() && other.data_begin() == other.data_end())
             {
                 // all elements are empty (all FixedSize parameters of size 0): only the number of elements differs
@@ -602,6 +612,14 @@ class BasicContiguousVector<cntgs::Options<Option...>, Parameter...>
         {
             return std::lexicographical_compare(begin(), end(), other.begin(), other.end());
         }
+    }
+
+    template <class... TOption, std::size_t... I>
+    constexpr bool has_equal_fixed_sizes(
+        [[maybe_unused]] const cntgs::BasicContiguousVector<cntgs::Options<TOption...>, Parameter...>& other,
+        std::index_sequence<I...>) const noexcept
+    {
+        return ((get_fixed_size<I>() == other.template get_fixed_size<I>()) && ...);
     }
 
     constexpr iterator make_iterator(const const_iterator& it) noexcept { return {*this, it.index()}; }
